@@ -66,6 +66,9 @@ var playConv = []string{"options", "describe", "setup-tcp", "play", "frame", "ge
 var playUDPConv = []string{"options", "describe", "setup-udp", "play", "getparam", "teardown"}
 var recConv = []string{"options", "announce", "setup-rec-tcp", "record", "frame", "frame", "teardown"}
 var recUDPConv = []string{"announce", "setup-rec-udp", "record", "getparam"}
+
+// a publisher that asks for client ports the server cannot send to (sendto() to port 0 fails)
+var recUDP0Conv = []string{"announce", "setup-rec-udp0", "record", "getparam"}
 var httpConv = []string{"http-get", "b64", "garbage"}
 var httpPostConv = []string{"http-post", "b64", "b64"}
 var wsConv = []string{"ws-upgrade", "ws-frame", "ws-frame", "garbage"}
@@ -89,7 +92,7 @@ func gen(seed uint64, tier string) Scenario {
 	sc.IdleMS = r.Pick(3000, 6000, 10000)
 	sc.ReadMS = r.Pick(2000, 4000, 10000)
 	nh := r.Range(1, 4)
-	convs := [][]string{playConv, playUDPConv, recConv, recUDPConv, httpConv, httpPostConv, wsConv}
+	convs := [][]string{playConv, playUDPConv, recConv, recUDPConv, httpConv, httpPostConv, wsConv, recUDP0Conv, recUDP0Conv}
 	for i := 0; i < nh; i++ {
 		h := Hostile{StartUS: r.Intn(300000)}
 		h.TLS = sc.Secure && r.Bool(0.7)
@@ -198,7 +201,7 @@ func build(tmpl string, scheme string, sess string, idx int, mu *peers.Mutator) 
 		return marshal(&base.Request{Method: base.Options, URL: u("/stream"), Header: hdr})
 	case "describe":
 		return marshal(&base.Request{Method: base.Describe, URL: u("/stream"), Header: hdr})
-	case "setup-udp", "setup-tcp", "setup-rec-udp", "setup-rec-tcp":
+	case "setup-udp", "setup-tcp", "setup-rec-udp", "setup-rec-tcp", "setup-rec-udp0":
 		th := headers.Transport{Delivery: ptrOf(headers.TransportDeliveryUnicast)}
 		// the secure profile: on TLS servers, and (less often) on plain ones, where it must be refused;
 		// with a garbage key-management header or a fully valid one
@@ -211,10 +214,14 @@ func build(tmpl string, scheme string, sess string, idx int, mu *peers.Mutator) 
 				}
 			}
 		}
-		if strings.HasSuffix(tmpl, "udp") {
+		if strings.HasSuffix(tmpl, "udp") || strings.HasSuffix(tmpl, "udp0") {
 			th.Protocol = headers.TransportProtocolUDP
 			p := 30000 + 2*mu.Pick("port", 500)
 			th.ClientPorts = &[2]int{p, p + 1}
+			if mu.Chance("port0", 0.15) || tmpl == "setup-rec-udp0" {
+				// ports the server cannot send to (sendto() to port 0 fails)
+				th.ClientPorts = &[2]int{0, 1}
+			}
 		} else {
 			th.Protocol = headers.TransportProtocolTCP
 			c := 2 * mu.Pick("chan", 4)
